@@ -168,9 +168,11 @@ fn(M + '.utils:walk', props=['C08'], trusted=True,
    raises=['PyException'], modifies=['*'],
    note='applies the node transforms; may raise; assumed not to touch the caller\'s user_config')
 
-RESTORED = ["has(config.user_config, 'text')",
-            # the value found on entry (None when the key was absent) is back, whatever happened in between
-            "same(at(config.user_config, 'text'), (old(at(config.user_config, 'text')) if old(has(config.user_config, 'text')) else None))",
+RESTORED = [# the value found on entry is back, whatever happened in between; a key that was absent is absent or None
+            "implies(old(has(config.user_config, 'text')), has(config.user_config, 'text') and "
+            "        same(at(config.user_config, 'text'), old(at(config.user_config, 'text'))))",
+            "implies(not old(has(config.user_config, 'text')), not has(config.user_config, 'text') or "
+            "        same(at(config.user_config, 'text'), None))",
             'config.user_config is old(config.user_config)', UC_SAME]
 fn(M + ':parse', props=['C08'],
    params={'abbr': 'any', 'config': 'Config'}, returns='any',
